@@ -79,6 +79,13 @@ func (r *Runner) execCodec(a []string) string {
 			if len(b) < 1 || len(b) > 9 || len(b) != enc.Varint64Size(v) {
 				r.oracleFail("codec-size", fmt.Sprintf("varint64 %d: len %d size %d", v, len(b), enc.Varint64Size(v)))
 			}
+			// the 32-bit reader accepts exactly the int32 range
+			c32 := append([]byte{}, b...)
+			got32, err32 := enc.DecodeVarint32(&c32)
+			in32 := v >= math.MinInt32 && v <= math.MaxInt32
+			if in32 != (err32 == nil) || (in32 && (int64(got32) != v || len(c32) != 0)) {
+				r.oracleFail("codec-varint32", fmt.Sprintf("DecodeVarint32 of the encoding of %d: %d err=%v rest=%d", v, got32, err32, len(c32)))
+			}
 		case "decv":
 			in, err := parseBytes(arg)
 			if err != nil {
